@@ -37,6 +37,8 @@ var cleanKeys = []Obj{
 	sym("a"), sym("alpha"), key("a"), key("alpha"), objNil, objT,
 	vec(fix(1), fix(2)), vec(), vec(str("a")),
 	opq("(make-instance 'c16-pt :x 1)"), opq("(lambda (x) x)"), opq("(make-instance 'c16-fl)"),
+	opq("(make-c16-st :a 1)"), opq("(make-condition 'c16-cond)"), opq("(make-array (list 2 2))"), opq("(make-string-output-stream)"),
+	vec(list(fix(1), fix(2)), str("x")), vec(vec(fix(1))), chr("é"), chr("É"), str("é"), str("abc"), str("ABC"), str("Abc"),
 }
 
 // keys the pinned tree is known to mishandle, one hazard class each
@@ -127,6 +129,10 @@ func pickKeys(r *rand.Rand, pool []Obj, n int, have []Obj) []Obj {
 
 var exhKeys = []Obj{fix(7), str("key"), sym("alpha"), chr("k"), num("double", "2.5"), vec(fix(1), fix(2))}
 
+// the second exhaustive key set: one name as string in both cases, as
+// character, symbol and keyword, and the character's code
+var exhKeys2 = []Obj{str("a"), str("A"), chr("a"), sym("a"), key("a"), fix(97)}
+
 const exhAlphabet = 2*nSlots + 1
 
 func exhCount(depth int) int {
@@ -139,7 +145,7 @@ func exhCount(depth int) int {
 
 // exhHistory enumerates every history of exactly depth operations (the
 // observation after each operation covers all shorter ones) x every test.
-func exhHistory(i, depth int) Case {
+func exhHistory(i, depth int, keys []Obj) Case {
 	test := tests[i%len(tests)]
 	i /= len(tests)
 	ops := make([]Op, depth)
@@ -155,7 +161,7 @@ func exhHistory(i, depth int) Case {
 			ops[t] = Op{O: "clr"}
 		}
 	}
-	return Case{Kind: "hist", Test: test, Objs: exhKeys, Ops: ops}
+	return Case{Kind: "hist", Test: test, Objs: keys, Ops: ops}
 }
 
 // probeHistories: fixed histories over each hazard class (so that every known
@@ -194,6 +200,48 @@ func probeHistories() []Case {
 		cs = append(cs, Case{Kind: "hist", Test: t, Objs: keys, Ops: []Op{{O: "set", S: 0, I: 0, V: 101}, {O: "set", S: 0, I: 1, V: 102}, {O: "set", S: 1, I: 0, V: 103},
 			{O: "set", S: 2, I: 1, V: 104}, {O: "set", S: 3, V: 105}, {O: "set", S: 4, I: 0, V: 106}, {O: "set", S: 4, I: 1, V: 107}, {O: "set", S: 5, V: 108},
 			{O: "rem", S: 0, I: 0}, {O: "rem", S: 4, I: 0}, {O: "map"}, {O: "clr"}}})
+	}
+	return cs
+}
+
+// sweepHistories: for every table test, key sets that hold every hashable
+// kind (one kind per set, with its near-collisions: case variants, the same
+// name as string/character/symbol/keyword, nested vectors, instances of
+// classes, flavors, structures and conditions), each driven through two fixed
+// scripts that store, overwrite through the equivalent object, remove, count,
+// map and clear. make-hash-table documents :test as ignored ("eql always
+// used"), so the model is the documented eql for every test: "abc" and "ABC"
+// are different keys also in an equalp table.
+func sweepHistories() []Case {
+	groups := [][]Obj{
+		{chr("a"), chr("A"), chr("b"), chr("1"), chr("é"), chr("É")},
+		{str("abc"), str("ABC"), str("Abc"), str("abd"), str(""), str("abc ")},
+		{str("a"), chr("a"), sym("a"), key("a"), str("A"), chr("A")},
+		{fix(0), fix(1), fix(-1), fix(65), fix(97), fix(1000000)},
+		{num("single", "0.5"), num("single", "1.5"), num("double", "2.5"), num("double", "0.1"), num("double", "-4.0"), num("single", "100.0")},
+		{sym("a"), sym("b"), sym("alpha"), key("a"), key("alpha"), objNil},
+		{objNil, objT, fix(0), str(""), str("nil"), sym("nil1")},
+		{vec(fix(1), fix(2)), vec(), vec(str("a")), vec(list(fix(1), fix(2)), str("x")), vec(vec(fix(1))), vec(sym("a"))},
+		{opq("(make-instance 'c16-pt :x 1)"), opq("(make-instance 'c16-fl)"), opq("(make-c16-st :a 1)"), opq("(make-c16-st2 :a 1 :c 2)"),
+			opq("(make-condition 'c16-cond)"), opq("(lambda (x) x)")},
+		{opq("(make-array (list 2 2))"), opq("(make-string-output-stream)"), opq("#*101"), opq("(make-instance 'c16-k :v 1)"),
+			opq("(make-instance 'c16-k2 :v 1)"), opq("(make-condition 'simple-error)")},
+	}
+	scripts := [][]Op{
+		{{O: "set", S: 0, I: 0, V: 101}, {O: "set", S: 1, I: 1, V: 102}, {O: "set", S: 2, I: 0, V: 103}, {O: "get", S: 0, I: 1}, {O: "set", S: 0, I: 1, V: 104},
+			{O: "rem", S: 1, I: 0}, {O: "set", S: 3, I: 1, V: 0}, {O: "set", S: 4, I: 0, V: 106}, {O: "set", S: 5, I: 1, V: 107}, {O: "rem", S: 0, I: 1},
+			{O: "cnt"}, {O: "map"}, {O: "clr"}, {O: "set", S: 5, I: 0, V: 108}},
+		{{O: "set", S: 5, I: 1, V: 101}, {O: "set", S: 4, I: 0, V: 102}, {O: "set", S: 3, I: 1, V: 103}, {O: "set", S: 2, I: 0, V: 104}, {O: "set", S: 1, I: 1, V: 105},
+			{O: "set", S: 0, I: 0, V: 106}, {O: "map"}, {O: "rem", S: 2, I: 1}, {O: "rem", S: 2, I: 0}, {O: "set", S: 1, I: 0, V: 107}, {O: "get", S: 4, I: 1},
+			{O: "rem", S: 5, I: 0}, {O: "cnt"}, {O: "set", S: 2, I: 1, V: 108}},
+	}
+	var cs []Case
+	for _, t := range tests {
+		for _, g := range groups {
+			for _, sc := range scripts {
+				cs = append(cs, Case{Kind: "hist", Test: t, Objs: g, Ops: sc})
+			}
+		}
 	}
 	return cs
 }
